@@ -45,7 +45,9 @@ MUST_HIT = ([f"inherit:{c}" for c in hx.CATEGORIES] + [f"override:{c}" for c in 
             ["conflict-raised", "priority-settles-clash", "same-object-twice", "local-settles-equal-clash",
              "clash-below-top-settled", "multi-parent-equal-priority", "multi-parent-diff-priority", "diamond",
              "diag-comm-ref", "job-vs-service", "twin-unit-group", "decode-visible", "decode-hidden-excluded",
-             "decode-hidden-overridden", "parent-alone-compared", "docs-split", "layers:5"])
+             "decode-hidden-overridden", "parent-alone-compared", "docs-split", "layers:5",
+             "snref-binding-compared", "snref-behaviour-compared", "snref-dop-overridden-by-child",
+             "snref-struct-overridden-by-child"])
 
 
 def cname(cat: str, letter: str) -> str:
@@ -71,6 +73,54 @@ def observe(dl) -> dict:
     out["_services"] = [(x.short_name, x.long_name) for x in dl.services]
     out["_diag_services"] = [(x.short_name, x.long_name) for x in dl.diag_services]
     out["_jobs"] = [(x.short_name, x.long_name) for x in dl.single_ecu_jobs]
+    return out
+
+
+def bindings(dl) -> list:
+    """objects the short-name references inside the layer's data dictionary objects are bound to:
+    [((kind, object short name, parameter), (uid of the bound object, width)), ...]"""
+    out = []
+    ddd = dl.diag_data_dictionary_spec
+    for st in ddd.structures:
+        for p in st.parameters:
+            if getattr(p, "dop_snref", None) is not None:
+                d = p.dop
+                bl = getattr(getattr(d, "diag_coded_type", None), "bit_length", None)
+                out.append((("structure", st.short_name, p.short_name), (d.long_name, bl)))
+    for kind in ("static_fields", "end_of_pdu_fields"):
+        for f in getattr(ddd, kind):
+            if getattr(f, "structure_snref", None) is not None:
+                out.append(((kind, f.short_name, "structure"), (f.structure.long_name, None)))
+    return out
+
+
+def behaviour(hier: dict, dl) -> list:
+    """en-/decoding of the services visible in the layer whose request embeds a structure:
+    [((service uid, what), result), ...]  (results are reprs / exception type names)"""
+    from odxtools.exceptions import OdxError
+    out = []
+    by_uid = {}
+    for l in hier["layers"]:
+        for n, e in l.get("objs", {}).get("diag_comms", {}).items():
+            if e["kind"] == "service" and e.get("struct"):
+                by_uid[e["uid"]] = (l["name"], n)
+    for s in dl.services:
+        if s.long_name not in by_uid:
+            continue
+        pre = hx.service_prefix(hier, *by_uid[s.long_name])
+        with warnings.catch_warnings():
+            warnings.simplefilter("ignore")
+            try:
+                r = s.request.encode(payload={"v": 5}).hex()
+            except (OdxError, KeyError, TypeError, ValueError) as e:
+                r = type(e).__name__
+            out.append(((s.long_name, "encode"), r))
+            for tail in (b"\x07", b"\x01\x02"):
+                try:
+                    r = repr([mm.param_dict for mm in dl.decode(pre + tail)])
+                except OdxError as e:
+                    r = type(e).__name__
+                out.append(((s.long_name, "decode " + tail.hex()), r))
     return out
 
 
@@ -177,6 +227,23 @@ def features(hier: dict, m: inherit.Model, exp: dict) -> tuple[set, bool]:
     return cls, nontrivial
 
 
+def snref_sites(hier: dict, m: inherit.Model) -> list:
+    """short-name references inside locally defined data dictionary objects:
+    [{"layer", "kind": "dop"|"struct", "name": referenced short name, "overridden_below": a descendant
+      defines the referenced name locally (so that descendant sees another object under that name)}]"""
+    out = []
+    for l in hier["layers"]:
+        desc = [o for o in hier["layers"] if l["name"] in m.ancestors(o["name"])]
+        for cat, key, kind, tcat in (("structures", "dop_snref", "dop", "dops"),
+                                     ("static_fields", "struct_snref", "struct", "structures"),
+                                     ("end_of_pdu_fields", "struct_snref", "struct", "structures")):
+            for e in l.get("objs", {}).get(cat, {}).values():
+                if isinstance(e, dict) and e.get(key):
+                    out.append({"layer": l["name"], "kind": kind, "name": e[key],
+                                "overridden_below": any(e[key] in o.get("objs", {}).get(tcat, {}) for o in desc)})
+    return out
+
+
 def _fail(clause, detail, hier, bucket, **feat):
     f = {"bucket": bucket}
     f.update(feat)
@@ -227,7 +294,7 @@ def decode_clause(hier, db, m, exp, cls) -> list:
     svc = []   # (defining layer, short name, uid, pdu)
     for l in hier["layers"]:
         for n, e in l.get("objs", {}).get("diag_comms", {}).items():
-            if e["kind"] == "service":
+            if e["kind"] == "service" and not e.get("struct"):   # binding-dependent requests: see behaviour()
                 svc.append((l["name"], n, e["uid"], hx.service_prefix(hier, l["name"], n)))
     for l in hier["layers"]:
         ln = l["name"]
@@ -288,30 +355,54 @@ def evaluate(hier: dict, sub_check: bool = True) -> tuple[list, set, bool]:
     fails = compare_views(hier, db, m, exp)
     if not fails:
         fails += decode_clause(hier, db, m, exp, cls)
-    # a parent's own view is never altered by its children: load the parent without them
+    # a parent's own view is never altered by its children: load the parent without them and compare the
+    # visible objects, the objects the short-name references of its data dictionary are bound to, and the
+    # en-/decoding of its services that embed such structures
     if sub_check and not fails and len(hier["layers"]) >= 2:
-        best = None
+        sn = snref_sites(hier, m)
+        cands = []
         for l in hier["layers"]:
             clo = m.closure(l["name"])
-            if len(clo) < len(hier["layers"]) and (l.get("parents") or l["type"] == "ECU-SHARED-DATA" or True):
-                ndesc = sum(1 for o in hier["layers"] if l["name"] in m.ancestors(o["name"]))
-                if ndesc and (best is None or (ndesc, -len(clo)) > best[0]):
-                    best = ((ndesc, -len(clo)), l["name"], clo)
-        if best is not None:
-            _, ln, clo = best
+            if len(clo) >= len(hier["layers"]):
+                continue
+            ndesc = sum(1 for o in hier["layers"] if l["name"] in m.ancestors(o["name"]))
+            if not ndesc:
+                continue
+            hot = sum(1 for x in sn if x["layer"] == l["name"] and x["overridden_below"])
+            cands.append(((hot, ndesc, -len(clo)), l["name"], clo))
+        cands.sort(key=lambda x: x[0], reverse=True)
+        picked = cands[:1] + [c for c in cands[1:2] if c[0][0] > 0]
+        for score, ln, clo in picked:
             sub = hx.restrict(hier, clo)
             db2, exc2 = _load(sub)
             cls.add("parent-alone-compared")
             if exc2 is not None:
                 fails.append(_fail("spurious-error", f"loading {sorted(clo)} alone raised {type(exc2).__name__}: {exc2}",
                                    sub, f"spurious-error:{type(exc2).__name__}"))
-            else:
+                continue
+            try:
                 a = observe(db.diag_layers[ln])
                 b = observe(db2.diag_layers[ln])
-                for c in a:
-                    if dict(a[c]) != dict(b[c]):
-                        fails.append(_fail("parent-altered", f"layer {ln} category {c}: with children {a[c]}, alone {b[c]}",
-                                           hier, f"parent-altered:{c}", category=c))
+                a["_bindings"], b["_bindings"] = bindings(db.diag_layers[ln]), bindings(db2.diag_layers[ln])
+                a["_behaviour"], b["_behaviour"] = behaviour(hier, db.diag_layers[ln]), behaviour(sub, db2.diag_layers[ln])
+            except Exception as e:
+                fails.append(_fail("observe", f"layer {ln} (alone vs. with children): {type(e).__name__}: {e}", hier,
+                                   f"observe:{type(e).__name__}"))
+                continue
+            if a["_bindings"]:
+                cls.add("snref-binding-compared")
+            if a["_behaviour"]:
+                cls.add("snref-behaviour-compared")
+            if score[0]:
+                for x in sn:
+                    if x["layer"] == ln and x["overridden_below"]:
+                        cls.add(f"snref-{x['kind']}-overridden-by-child")
+            for c in a:
+                if dict(a[c]) != dict(b[c]):
+                    diff = sorted(k for k in set(dict(a[c])) | set(dict(b[c])) if dict(a[c]).get(k) != dict(b[c]).get(k))
+                    fails.append(_fail("parent-altered", f"layer {ln} {c.lstrip('_')}: with children "
+                                       f"{[(k, dict(a[c]).get(k)) for k in diff]}, alone {[(k, dict(b[c]).get(k)) for k in diff]}",
+                                       hier, f"parent-altered:{c}", category=c))
     return fails, cls, nontrivial
 
 
@@ -350,8 +441,80 @@ PROFILES = {
     # many parents, one category, one or two names: clashes, priorities, diamonds, conflicts
     "dense": {"n": [4, 5, 5], "ncat": [1], "letters": [["a"], ["a", "b"]], "dens": [4, 6], "ni_dens": [0, 1], "pdens": [6, 7]},
     # hierarchies without value-inherited objects (C15)
-    "bare": {"n": [1, 2, 3, 3, 4, 4, 5], "ncat": [0], "letters": [["a"]], "dens": [0], "ni_dens": [0], "pdens": [4, 6, 7]},
+    "bare": {"snref": 0, "n": [1, 2, 3, 3, 4, 4, 5], "ncat": [0], "letters": [["a"]], "dens": [0], "ni_dens": [0], "pdens": [4, 6, 7]},
 }
+
+
+def snref_scenario(layers: list, pname: str, field, overrides: dict) -> None:
+    """layer `pname` gets (if it does not see one) the DOP "a", the structure "sr" whose parameter refers to
+    "a" by DOP-SNREF, optionally a field "fr" (category `field`) referring to "sr" by BASIC-STRUCTURE-SNREF and
+    the service "w" whose request embeds "sr"; `overrides` = {layer name: "dop"|"struct"|"both"}: these layers
+    locally define a 16 bit DOP "a" and / or another structure "sr"."""
+    m = inherit.Model({"layers": layers})
+    by = {l["name"]: l for l in layers}
+    P = by[pname]
+    o = P.setdefault("objs", {})
+    if "a" not in m.view(pname, "dops"):
+        o.setdefault("dops", {})["a"] = {"uid": f"{pname}:dops:a", "bits": 8}
+    o.setdefault("structures", {})["sr"] = {"uid": f"{pname}:structures:sr", "dop_snref": "a"}
+    if field:
+        o.setdefault(field, {})["fr"] = {"uid": f"{pname}:{field}:fr", "struct_snref": "sr"}
+    o.setdefault("diag_comms", {})["w"] = {"kind": "service", "uid": f"{pname}:diag_comms:w", "struct": "sr"}
+    for dn, what in overrides.items():
+        d = by[dn].setdefault("objs", {})
+        if what in ("dop", "both"):
+            d.setdefault("dops", {})["a"] = {"uid": f"{dn}:dops:a:wide", "bits": 16}
+        if what in ("struct", "both"):
+            d.setdefault("structures", {})["sr"] = f"{dn}:structures:sr"
+
+
+def inject_snref(draw, layers: list) -> None:
+    from hypothesis import strategies as st
+    m = inherit.Model({"layers": layers})
+    withdesc = [l["name"] for l in layers if any(l["name"] in m.ancestors(o["name"]) for o in layers)]
+    pname = draw(st.sampled_from(withdesc or [l["name"] for l in layers]))
+    field = draw(st.sampled_from([None, None, "static_fields", "end_of_pdu_fields"]))
+    overrides = {}
+    for o in layers:
+        if pname in m.ancestors(o["name"]) and draw(st.integers(0, 3)) > 0:
+            overrides[o["name"]] = draw(st.sampled_from(["dop", "dop", "struct", "both"]))
+    snref_scenario(layers, pname, field, overrides)
+
+
+def enum_snref():
+    """small systematic space around short-name references in inherited objects: parent P with the scenario
+    of snref_scenario, one or two direct children or a child and a grandchild, every choice of overriding
+    layers / kinds, field kind, exclusion of "a" on the child's PARENT-REF, document split and order"""
+    T = hx.LAYER_TYPES
+    A = inherit.ALLOWED_PARENTS
+    shapes = []
+    for tp in T:
+        for td in T:
+            if tp in A[td]:
+                shapes.append([("P", tp, []), ("D", td, ["P"])])
+                if td != "ECU-SHARED-DATA":
+                    shapes.append([("P", tp, []), ("D", td, ["P"]), ("D2", td, ["P"])])
+                for tg in T:
+                    if td in A[tg]:
+                        shapes.append([("P", tp, []), ("D", td, ["P"]), ("G", tg, ["D"])])
+    for shape in shapes:
+        kids = [n for n, _, _ in shape[1:]]
+        for ov in itertools.product([None, "dop", "struct", "both"], repeat=len(kids)):
+            if not any(ov):
+                continue
+            for field in (None, "static_fields", "end_of_pdu_fields"):
+                for ni in ([], ["a"]):
+                    for docs in (None, "kids-first", "parent-last-split"):
+                        layers = [{"name": n, "type": t, "objs": {},
+                                   "parents": [{"layer": p, "ni": ({"dops": list(ni)} if ni and n == "D" else {})} for p in ps]}
+                                  for n, t, ps in shape]
+                        snref_scenario(layers, "P", field, {k: o for k, o in zip(kids, ov) if o})
+                        h = {"layers": layers}
+                        if docs == "kids-first":
+                            h["docs"] = [[k] for k in reversed(kids)] + [["P"]]
+                        elif docs == "parent-last-split":
+                            h["docs"] = [["P"], kids]
+                        yield add_helpers(h)
 
 
 def hier_strategy(profile="mix", comparams=None, cats=None):
@@ -430,6 +593,8 @@ def hier_strategy(profile="mix", comparams=None, cats=None):
                     if tg and draw(st.integers(0, 7)) < 2:
                         l["objs"].setdefault("diag_comms", {})[lt] = {"kind": "ref", "layer": draw(st.sampled_from(tg)),
                                                                        "name": lt}
+        if prof.get("snref", 3) and draw(st.integers(0, 7)) < prof.get("snref", 3):
+            inject_snref(draw, layers)
         hier = {"layers": layers}
         mode = draw(st.sampled_from([0, 0, 1, 2]))
         if mode == 1:
@@ -516,6 +681,8 @@ def shards(tier):
         out.append(("hyp", i, "dense" if i % 4 == 3 else "mix"))
     for c in hx.CATEGORIES:
         out.append(("enum", 2, c, None))
+    for k in range(3):
+        out.append(("snref", k, 3))
     if tier == "thorough":
         for c in ["diag_comms", "dops", "tables", "gnrs", "state_charts", "unit_groups"]:
             for t0 in hx.LAYER_TYPES:
@@ -541,6 +708,21 @@ def run_shard(spec, seed, tier):
                 new.append(f)
         return new
 
+    if spec[0] == "snref":
+        n = 0
+        for i, h in enumerate(enum_snref()):
+            if i % spec[2] != spec[1]:
+                continue
+            n += 1
+            new = body(h, sample=(n % 211 == 1))
+            if new and len(res.failures) < 20:
+                res.failures.extend(new[:2])
+        res.stages["enumeration"] = n
+        res.exhaustive_subspaces.append(
+            "short-name references in inherited objects: parent with DOP a / structure sr (DOP-SNREF a) / optional field "
+            "(BASIC-STRUCTURE-SNREF sr) / service embedding sr; one child, two children or child + grandchild of every "
+            "allowed type combination; every choice of layers overriding a and / or sr; exclusion of a; 3 document layouts")
+        return res
     if spec[0] == "enum":
         _, k, cat, t0 = spec
         filt = None if t0 is None else (lambda ts: list(ts[:2]) == list(t0))
@@ -557,7 +739,7 @@ def run_shard(spec, seed, tier):
             f"all hierarchies of exactly {k} layers (ordered type tuples), all allowed PARENT-REF sets, short names "
             f"a,b of category {cat} in all placements, all effective NOT-INHERITED subsets per parent reference")
         return res
-    n = 400 if tier == "quick" else 3000
+    n = 600 if tier == "quick" else 3000
     prof = spec[2]
     cats = None
     if prof == "dense":   # the dense shards rotate over the categories so that each sees clashes
